@@ -350,7 +350,7 @@ func (w *World) replayReq(rng *rand.Rand, op *Op, step int, pre []RealEntry, res
 	// the stub embedder must have been asked about the latest user message and nothing else
 	for _, t := range w.emb.texts[nEmb:] {
 		if pos := positionOfText(t); pos != op.Pos {
-			w.notes = append(w.notes, fmt.Sprintf("embedder was asked about %q (position %s) for a request at %s", t, pos, op.Pos))
+			res.Errors = append(res.Errors, fmt.Sprintf("refinement broken: the embedder was asked about %q (position %s) for a request whose latest user message is at %s", t, pos, op.Pos))
 		}
 	}
 	reqDesc := fmt.Sprintf("POST %s %s", c.Path, c.Body)
